@@ -4,7 +4,10 @@
 //! of wall clock), unit 3 is slow but makes progress (0.6 s of CPU per case: must
 //! NOT be killed), unit 4 waits 2.5 s per case for a child process of its own
 //! (asleep without CPU, but not blocked: must NOT be killed).
-//! `c00wd quick` is expected to exit 1 with exactly two violations (class hang).
+//! Unit 5 works for half a second and THEN sleeps forever (a case that got stuck after
+//! making progress, e.g. a thread blocked on a lock the scheduler does not know of):
+//! must be killed after the timeout of idle wall clock, not after the 8x backstop.
+//! `c00wd quick` is expected to exit 1 with exactly three violations (class hang).
 use vcore::{Cfg, Check, Cx, Finding, Meta, Value, Violation, json};
 
 struct Wd;
@@ -14,7 +17,7 @@ impl Check for Wd {
         "C00"
     }
     fn units(&self, _cfg: &Cfg) -> usize {
-        5
+        6
     }
     fn case_timeout_s(&self, _cfg: &Cfg) -> f64 {
         1.0
@@ -32,6 +35,15 @@ impl Check for Wd {
                 (2, 1) => loop {
                     std::thread::sleep(std::time::Duration::from_secs(1));
                 },
+                (5, 1) => {
+                    let t = std::time::Instant::now();
+                    while t.elapsed().as_millis() < 500 {
+                        std::hint::black_box(0);
+                    }
+                    loop {
+                        std::thread::sleep(std::time::Duration::from_secs(1));
+                    }
+                }
                 (3, _) => {
                     // 0.6 s of CPU per case: progress, below the timeout
                     let t = std::time::Instant::now();
